@@ -43,6 +43,17 @@ def choose (hdrLen : Blocks → Nat) (xmlSize : Nat) (suppSize : Option Nat) (pv
     let b := layout xmlOff xmlSize suppSize pvpSize sigSize
     if xmlOff < hdrLen b + 2 then choose hdrLen xmlSize suppSize pvpSize sigSize fuel (align (hdrLen b + 2 + 32)) else some b
 
+/-- the decision `make_file_header` takes once the header text (`hdrBytes` bytes) is rendered: `none` = the XML offset is large
+    enough, `some xo` = call again with XML offset `xo` (CPHD.py: `min_xml_offset = len(header_str.encode()) + 2`,
+    `if xml_offset < min_xml_offset: ... _align(min_xml_offset + 32)`); `choose` is the recursion over this decision
+    (`Props.C09.choose_succ`) -/
+def retryOffset (xmlOff hdrBytes : Nat) : Option Nat :=
+  if xmlOff < hdrBytes + 2 then some (align (hdrBytes + 2 + 32)) else none
+
+/-- the integer header attributes of a layout, in the order of `_fields` (absent SUPPORT entries are `None`) -/
+def headerInts (b : Blocks) : Option Nat × Option Nat × Option Nat × Option Nat × Option Nat × Option Nat × Option Nat × Option Nat :=
+  (some b.xmlSize, some b.xmlOff, b.supp.map (·.2), b.supp.map (·.1), some b.pvpSize, some b.pvpOff, some b.sigSize, some b.sigOff)
+
 /-- per-element byte ranges inside a block, from the metadata's relative offsets and sizes -/
 def elementRanges (blockOff : Nat) (rel : List (Nat × Nat)) : List (Nat × Nat) :=
   rel.map (fun r => (blockOff + r.1, blockOff + r.1 + r.2))
